@@ -3,6 +3,15 @@
 import json, sys
 REFNOTE = "Trusted base: libcrypto single-block AES/DES/SM4 and plain MD5/SHA/SM3 (an independent implementation); every mode, MAC, AEAD composition and CRC is written in /verif/ref from the specifications. Algorithms without an admitted reference (listed in the evidence counter 'reference_not_admitted': ZUC, SNOW3G, KASUMI, SNOW-V, PON until their hand-written references are admitted) are covered by the differential oracles of C04/C08 only. This is seeded input sampling with an independent oracle; the schedule adds lane co-occupancy."
 claimed = {
+ "C09": ("exploration", "cross-entry-point differential: every work item through a direct/sync-burst entry point vs the job API",
+   "Seeded plans of synchronous cipher/hash/AEAD bursts (sizes 1..128, checked and no-check) and direct calls: GCM one-shot and init/update/finalize (seeded partitions), GMAC init/update/finalize, GHASH, SHA one-shot, the twelve CRC functions, ZUC EEA3 1/4/n-buffer and EIA3 1/n-buffer, SNOW3G F8 1/2/4/8/n(+multikey)/bit and F9, KASUMI F8 1/2/3/4/n/bit and F9, ChaCha20-Poly1305 init/update/finalize; n-buffer calls use n below, equal to and above the lane count with unequal lengths. Each buffer's output/tag must be byte-identical to the same work item submitted alone through the job API on the same variant (and to the reference where one is admitted); a sync burst must return n with every job COMPLETED. Checked/no-check single-job submit and the asynchronous burst API are compared with the job API in the C04/C05 profiles (solo oracle).",
+   "Not yet covered: SHA one-block, HEC, QUIC batch helpers, single-block CFB (no job-API equivalent for partial blocks). Sync bursts are issued on an idle manager only (F12, sync burst while async jobs are parked, is not explored)."),
+ "C10": ("exploration", "segmentation (the partition of the message is the schedule): SGL streams interleaved with other traffic vs the one-shot job",
+   "GCM-SGL and ChaCha20-Poly1305-SGL streams (INIT/UPDATE.../COMPLETE jobs with a context carried between calls) are split by seeded ordered partitions (1..12 segments, zero-length segments, cuts inside 16- and 64-byte blocks) and their segment jobs are interleaved with other jobs, other SGL streams and flushes; segment-list (IMB_SGL_ALL) jobs and the direct GCM/GMAC/ChaCha20-Poly1305 init-update-finalize calls (C09 profile) are partitioned the same way. At COMPLETE the concatenated output and the tag must equal the non-SGL one-shot job on the same variant and the reference.",
+   "Partitions are sampled; the exhaustive 2-cut enumeration of DESIGN.md is thorough-tier work. Both directions, all key sizes, all 12 configurations."),
+ "C11": ("exploration", "helper outputs vs key schedules written from the standards, called at seeded points of ordinary traffic, on every variant",
+   "AES-128/192/256 key expansion (encrypt schedule vs FIPS-197, decrypt schedule vs the equivalent-inverse-cipher schedule), CMAC sub-keys (SP 800-38B), XCBC K1/K2/K3 (RFC 3566), HMAC ipad/opad states for SHA-1/224/256/384/512/MD5 with key lengths 0..160 (longer-than-block keys hashed first; HMAC-MD5 keys > 64 bytes must be refused with IMB_ERR_KEY_LEN and leave outputs untouched), AES round keys inside gcm_key_data, SNOW3G key schedule and the six 3GPP IV generators are compared byte-for-byte with references, for random and structured keys (all-zero, all-one, single-bit), and the same call is repeated on the six other variants' helpers and must give identical bytes. Calls are sprinkled between the ops of ordinary schedules (also while jobs are parked).",
+   "GHASH key powers, DES, SM4 and KASUMI schedules have library-specific layouts: they are covered through the jobs that consume them (C01-C03 reference checks use helper-made keys), not byte-compared. DES weak keys not yet included."),
  "C01": ("exploration", "reference-model refinement of every completed cipher job under seeded schedules",
    "Cipher-only jobs of every mode x key size x direction are generated with boundary-biased lengths (block/SIMD-width edges, >4 KiB, near 65534), offsets, alignments, in-place/out-of-place and IV classes (random, low byte FF, low 32 bits about to wrap, low 64 bits all ones, all ones), co-scheduled on all 12 init configurations; every handed-back job's destination bytes (exact bits for bit-length modes), source afterwards and CBCS next-IV are compared with a textbook reference applied to a shadow copy of the caller's memory.", REFNOTE),
  "C02": ("exploration", "reference-model refinement of every completed hash/MAC job under seeded schedules",
@@ -46,9 +55,6 @@ claimed = {
    "The documented algorithm list is matched by substring on the description strings."),
 }
 na = {
- "C09": "not built yet in this revision: entry-point differential (sync bursts, direct API) planned",
- "C10": "not built yet in this revision: SGL segmentation profile planned",
- "C11": "not built yet in this revision: needs reference key schedules",
  "C13": "not built yet in this revision: residue scanner planned",
  "C19": "not built yet in this revision: single-step tracer planned; may end as genuinely not applicable",
 }
